@@ -11,6 +11,8 @@ WT = os.environ.get("CONFIRM_WT", "/var/tmp/confirmwt")
 head = subprocess.run(["git", "-C", "/repo", "rev-parse", "HEAD"], capture_output=True, text=True).stdout.strip()
 if not os.path.isdir(WT):
     subprocess.run(["git", "-C", "/repo", "worktree", "add", "--detach", WT, "HEAD"], check=True, capture_output=True)
+subprocess.run(["git", "-C", WT, "reset", "-q", "--hard"], check=False)
+subprocess.run(["git", "-C", WT, "clean", "-fdq"], check=False)
 subprocess.run(["git", "-C", WT, "checkout", "-q", "--detach", head], check=True)
 subprocess.run(["git", "-C", WT, "checkout", "--", "."], check=True)
 subprocess.run(["git", "-C", WT, "clean", "-fdq"], check=True)
